@@ -26,6 +26,7 @@ P = {
  "C16": "Generic theorem: every proper prefix of a valid encoding is rejected, for every layout; exact-length types reject every other length; zero scalars are not importable and nothing imported is zero; combining or verifying share containers with an invalid payload is an error. That returned points are subgroup points holds by construction of the dlog model and is tied to the code by feeding off-subgroup / off-curve / bad-flag encodings at every point position of every type to model and implementation.",
  "C17": "Totality theorems (neither panic nor non-termination, debug and release semantics) for every consuming entry point that contains a panicking construct: zero test (exhaustive over the 256 OR-values), length-prefix parsing and slicing, share combination (Lagrange denominator), Signature::from_shares on the empty list, aggregate verification, proof-of-knowledge and timestamp verification for every u64, all signcryption decrypt paths with payloads of any size, time-lock decryption, the curve-tagged key wrapper on empty slices; under the oracle side conditions the code itself asserts. Panics inside dependencies: search harness only.",
  "C18": "Pinning theorems for every salt, tag, transcript label and order, framing rule, hash input layout and serde layout of the model, plus seal = documented construction for signcryption and time lock; tied to the code by the byte-exact correspondence run over all four constructions and all layouts, to the documented constructions by an independent reference implementation exchanging tuples in both directions, and to the pinned release by a golden corpus.",
+ "C19": "PARTIAL. Proved: every deterministic operation of the blsful layer depends on the arithmetic backend only through the primitives of the oracle record (key derivation, sign, verify, PoP, share combination: equal primitives give equal results); static obligation: the only backend-conditional item in src/ is the inner_types re-export. Decided by the two-build differential run, not by a theorem: that blstrs_plus and bls12_381_plus compute the same primitives - the generated cases of nine properties run against the harness built with the pure-Rust backend and are compared byte for byte with the extracted model, every deterministic output is compared between the two builds, and randomized artefacts produced under one backend are consumed under the other in both directions.",
  "C20": "PARTIAL. Proved (invariant by induction over arbitrary call histories of any length): every randomized entry point consumes at least one fresh entropy index unless it is refused before anything randomized happens; the draw counter never decreases; two different calls in a history consume disjoint non-empty index ranges; single-draw entry points are functions of exactly the seed at their index; equal ephemeral points imply equal derived scalars (seed-derivation collision). Outside the model: that from_entropy() yields distinct unpredictable seeds across calls, threads and processes (OS behaviour) - tested by the search harness (N identical calls, 8 threads, two processes).",
  "C14": "Encryption/decryption correctness, additive homomorphism for any list, decryption keys from shares, exact proof verification condition, completeness, verify-and-decrypt under own key only, transcript binds every public component injectively, modified tuples need a Fiat-Shamir collision.",
 }
